@@ -412,6 +412,21 @@ func retryOracles(run *retryRun, cfg string, modelSettled, stuck, havePlan bool,
 			v = append(v, viol("C09", "connect-not-first-or-repeated", "connection %d: first packet type %x, %d CONNECT packets", k, firstType, nConnect))
 		}
 	}
+	// every connection begins with the same CONNECT (client id and options do not change)
+	{
+		var firstConnect []byte
+		for _, e := range s.wire {
+			if e.pkt.Type != 0x10 {
+				continue
+			}
+			key := []byte(fmt.Sprintf("%s|%d|%02x|%d|%s|%s|%s|%x", e.pkt.ClientID, e.pkt.Level, e.pkt.ConnFlags, e.pkt.KeepAlive, e.pkt.User, e.pkt.Pass, e.pkt.WillTopic, e.pkt.WillPayload))
+			if firstConnect == nil {
+				firstConnect = key
+			} else if string(key) != string(firstConnect) {
+				v = append(v, viol("C09", "connect-options-differ", "CONNECT on connection %d carries %s, the first connection carried %s", e.conn, key, firstConnect))
+			}
+		}
+	}
 	for j, t := range s.dialAt {
 		// every transport created before this dial must have been closed before it
 		for _, c := range s.conns {
